@@ -2,6 +2,7 @@ mod conf;
 mod crash;
 mod ctl;
 mod ebytes;
+mod eclean;
 mod elines;
 mod elines2;
 mod etree;
@@ -105,6 +106,7 @@ fn dispatch_replay(prop: &str, v: &serde_json::Value) -> bool {
         "H" => hist::replay(v),
         "H-sweep" => hist::replay_sweep(v),
         "H-cli" => hist::replay_cli(v),
+        "E-clean" => eclean::replay(v),
         "K" => crash::replay(v),
         "E-proj" => eproj::replay(v),
         e => {
